@@ -87,6 +87,39 @@ namespace
     struct NKeyed { static constexpr auto name = "c10_f_keyed_node"; static void eval(In<"key", TS<Int>> key, In<"ts", TS<Int>> ts, Out<TS<Int>> out) { out.set(key.value() * 100 + ts.value()); } };
     struct NBcast { static constexpr auto name = "c10_f_bcast_node"; static void eval(In<"ts", TS<Int>> ts, In<"off", TS<Int>> off, Out<TS<Int>> out) { out.set(ts.value() * 10 + off.value()); } };
 
+    struct DictWriter2   // second multiplexed dictionary: reads g->bscript as dictionary ops
+    {
+        static constexpr auto name = "c10_dict_writer2";
+        static constexpr bool schedule_on_start = true;
+        static void eval(NodeScheduler sched, DateTime now, Out<DictI> out)
+        {
+            const long c = rel(now);
+            if (c < static_cast<long>(g->bscript.size())) { const std::string &ops = g->bscript[static_cast<std::size_t>(c)]; if (!ops.empty()) for (auto &op : split(ops, ',')) ShapeDictI::apply(out, op, now); }
+            if (c + 1 < g->cycles) sched.schedule(MIN_TD);
+        }
+    };
+    struct AloneWriter2   // alone-run element writer with an explicit "the element is gone" op ("i")
+    {
+        static constexpr auto name = "c10_alone_writer2";
+        static constexpr bool schedule_on_start = true;
+        static void eval(NodeScheduler sched, Scalar<"which", Int> which, DateTime now, Out<TS<Int>> out)
+        {
+            const long c = rel(now);
+            const auto &sc = which.value() == 1 ? g->bscript : g->script;
+            if (c < static_cast<long>(sc.size()) && !sc[static_cast<std::size_t>(c)].empty()) for (auto &op : split(sc[static_cast<std::size_t>(c)], ',')) ShapeTS::apply(out, op, now);
+            if (c + 1 < static_cast<long>(std::max(g->script.size(), g->bscript.size()))) sched.schedule(MIN_TD);
+        }
+    };
+    struct NPair { static constexpr auto name = "c10_f_pair_node"; static void eval(In<"a", TS<Int>> a, In<"b", TS<Int>> b, Out<TS<Int>> out) { out.set(a.value() * 1000 + b.value()); } };
+    struct NPairCount
+    {
+        static constexpr auto name = "c10_f_pair_count_node";
+        static void start(State<Int> n) { n.set(Int{0}); }
+        static void eval(In<"a", TS<Int>> a, In<"b", TS<Int>> b, State<Int> n, Out<TS<Int>> out) { n.set(n.get() + 1); out.set(n.get() * 1000000 + a.value() * 1000 + b.value()); }
+    };
+    struct FPair { static constexpr auto name = "c10_g_pair"; static Port<TS<Int>> compose(Wiring &w, Port<TS<Int>> a, Port<TS<Int>> b) { return wire<NPair>(w, a, b); } };
+    struct FPairCount { static constexpr auto name = "c10_g_pair_count"; static Port<TS<Int>> compose(Wiring &w, Port<TS<Int>> a, Port<TS<Int>> b) { return wire<NPairCount>(w, a, b); } };
+
     struct FStateless { static constexpr auto name = "c10_g_stateless"; static Port<TS<Int>> compose(Wiring &w, Port<TS<Int>> ts) { return wire<NStateless>(w, ts); } };
     struct FCounter { static constexpr auto name = "c10_g_counter"; static Port<TS<Int>> compose(Wiring &w, Port<TS<Int>> ts) { return wire<NCounter>(w, ts); } };
     struct FLate { static constexpr auto name = "c10_g_late"; static Port<TS<Int>> compose(Wiring &w, Port<TS<Int>> ts) { return wire<NLate>(w, ts); } };
@@ -279,8 +312,164 @@ namespace
         return out;
     }
 
+    // ---- two multiplexed dictionaries with differing key sets -----------------------------------------------------------------
+    // A child exists for every key of the UNION; each of its two inputs is the key's element of one dictionary, absent while the
+    // key is not in that dictionary. Alone run: two element writers, "i" (invalidate) where the element goes away.
+    template <typename F>
+    Outcome run_two(const std::vector<std::string> &script1, const std::vector<std::string> &script2)
+    {
+        Outcome out;
+        Run run; run.script = script1; run.bscript = script2; run.cycles = static_cast<int>(script1.size());
+        const long end = run.cycles + 4;
+        ChildObs obs;
+        std::string exc;
+        g = &run;
+        try
+        {
+            Wiring w;
+            auto d1 = wire<DictWriter>(w);
+            auto d2 = wire<DictWriter2>(w);
+            Port<DictI> m = wire<stdlib::map_>(w, fn<F>(), d1, d2).template as<DictI>();
+            wire<MapMirror>(w, m);
+            GraphBuilder gb = std::move(w).finish();
+            GraphExecutorBuilder eb;
+            eb.graph_builder(std::move(gb)).start_time(MIN_ST).end_time(MIN_ST + TimeDelta{end}).add_lifecycle_observer(&obs);
+            auto ex = eb.make_executor();
+            ex.view().run();
+        }
+        catch (const std::exception &e) { exc = e.what(); }
+        g = nullptr;
+        if (!exc.empty()) { out.violation = "run threw: " + exc; return out; }
+        // per-dictionary histories -> per-key union lives with two element scripts
+        struct Life2 { long key; long start; long stop; std::vector<std::string> e[2]; bool dontcare{false}; };
+        std::map<long, long> cur[2];
+        std::map<long, Life2> open;
+        std::vector<Life2> lives;
+        for (long c = 0; c < run.cycles; ++c)
+        {
+            std::map<long, long> before[2] = {cur[0], cur[1]};
+            std::set<long> written[2];
+            for (int j = 0; j < 2; ++j)
+            {
+                const std::string &ops = (j == 0 ? script1 : script2)[static_cast<std::size_t>(c)];
+                if (ops.empty()) continue;
+                for (auto &op : split(ops, ','))
+                {
+                    if (op[0] == 's') { auto eq = op.find('='); const long k = std::stol(op.substr(1, eq - 1)); cur[j][k] = std::stol(op.substr(eq + 1)); written[j].insert(k); }
+                    else if (op[0] == 'e') { const long k = std::stol(op.substr(1)); cur[j].erase(k); written[j].erase(k); }
+                }
+            }
+            std::set<long> all_before, all_now;
+            for (int j = 0; j < 2; ++j) { for (auto &[k, v] : before[j]) all_before.insert(k); for (auto &[k, v] : cur[j]) all_now.insert(k); }
+            for (long k : all_before) if (!all_now.count(k)) { Life2 l = open[k]; l.stop = c; lives.push_back(l); open.erase(k); }
+            for (long k : all_now)
+            {
+                if (!all_before.count(k)) { Life2 l; l.key = k; l.start = c; l.stop = end; open[k] = l; }
+                Life2 &l = open[k];
+                for (int j = 0; j < 2; ++j)
+                {
+                    while (static_cast<long>(l.e[j].size()) < c - l.start) l.e[j].push_back("");
+                    std::string op;
+                    if (cur[j].count(k)) { if (written[j].count(k) || !before[j].count(k)) op = "v" + std::to_string(cur[j][k]); }
+                    else if (before[j].count(k)) { op = "i"; l.dontcare = true; }   // the element went away while the child lives on
+                    l.e[j].push_back(op);
+                }
+            }
+        }
+        for (auto &[k, l] : open) lives.push_back(l);
+        // expected per key life from the alone runs. Whether the child still sees an element in the very cycle in which it leaves one
+        // dictionary (while the other keeps the key alive) is not stated: model A makes that input invalid from the leaving cycle, model B
+        // from the next cycle; a life must match one of them.
+        auto run_alone2 = [&](const Life2 &l, bool late_invalidate) {
+            Run r; r.script = l.e[0]; r.bscript = l.e[1];
+            if (late_invalidate)
+                for (auto *sc : {&r.script, &r.bscript})
+                    for (std::size_t i = sc->size(); i-- > 0;)
+                        if ((*sc)[i] == "i") { (*sc)[i].clear(); if (i + 1 >= sc->size()) sc->push_back(""); (*sc)[i + 1] = (*sc)[i + 1].empty() ? std::string{"i"} : "i," + (*sc)[i + 1]; }
+            r.cycles = static_cast<int>(std::max(r.script.size(), r.bscript.size()));
+            Run *saved = g; g = &r;
+            try
+            {
+                Wiring w;
+                auto a = wire<AloneWriter2>(w, Int{0});
+                auto b2 = wire<AloneWriter2>(w, Int{1});
+                wire<AloneProbe>(w, wire<F>(w, a, b2));
+                GraphBuilder gb = std::move(w).finish();
+                GraphExecutorBuilder eb;
+                eb.graph_builder(std::move(gb)).start_time(MIN_ST).end_time(MIN_ST + TimeDelta{std::min(l.stop, end) - l.start});
+                auto ex = eb.make_executor();
+                ex.view().run();
+            }
+            catch (...) { g = saved; throw; }
+            g = saved;
+            std::map<long, long> ticks;
+            for (auto &[t, v] : r.alone_out) ticks[l.start + t] = v;
+            return ticks;
+        };
+        // observed per-key ticks and presence
+        std::map<long, std::map<long, long>> seen;      // key -> cycle -> value (from the modified items of every map tick)
+        std::map<long, std::set<long>> present;         // cycle -> keys in the value
+        std::ostringstream sig;
+        auto parse_map = [](const std::string &text) { std::map<long, long> m; std::string cur; for (char ch : text) { if (ch == '{' || ch == '}' || ch == ' ') continue; if (ch == ',') { if (!cur.empty()) m[std::stol(cur.substr(0, cur.find('=')))] = std::stol(cur.substr(cur.find('=') + 1)); cur.clear(); } else cur += ch; } if (!cur.empty()) m[std::stol(cur.substr(0, cur.find('=')))] = std::stol(cur.substr(cur.find('=') + 1)); return m; };
+        std::map<long, long> last_value;
+        {
+            std::map<long, const Typed *> got_at;
+            for (auto &t : run.map_out) got_at[t.t] = &t;
+            std::map<long, long> value;
+            for (long c = 0; c < end; ++c)
+            {
+                if (got_at.count(c))
+                {
+                    ++out.ticks; sig << c << ":" << got_at[c]->value << ";";
+                    for (auto &[k, v] : parse_map(got_at[c]->modified)) seen[k][c] = v;
+                    value = parse_map(got_at[c]->value);
+                }
+                for (auto &[k, v] : value) present[c].insert(k);
+            }
+        }
+        auto show_ticks = [](const std::map<long, long> &m) { std::string o; for (auto &[c, v] : m) o += " t" + std::to_string(c) + "=" + std::to_string(v); return o.empty() ? std::string{" (none)"} : o; };
+        std::set<long> covered_keys;
+        for (auto &l : lives)
+        {
+            if (out.violation) break;
+            covered_keys.insert(l.key);
+            std::map<long, long> got;
+            if (seen.count(l.key)) for (auto &[c, v] : seen[l.key]) if (c >= l.start && c < l.stop) got[c] = v;
+            const auto want_a = run_alone2(l, false);
+            const auto want_b = l.dontcare ? run_alone2(l, true) : want_a;
+            if (got != want_a && got != want_b)
+            {
+                out.violation = "key " + std::to_string(l.key) + " (life from cycle " + std::to_string(l.start) + "): the two-dictionary map produced" + show_ticks(got) + " but the function alone on the key's two element streams gives" + show_ticks(want_a) + (l.dontcare ? " (or" + show_ticks(want_b) + ")" : std::string{});
+                break;
+            }
+            // the key is in the output exactly from its first output tick until the life ends
+            if (!got.empty())
+            {
+                const long first = got.begin()->first;
+                for (long c = first; c < std::min(l.stop, end); ++c) if (!present[c].count(l.key)) { out.violation = "key " + std::to_string(l.key) + " is missing from the map output in cycle " + std::to_string(c); break; }
+            }
+            if (!out.violation && l.stop < end && present[l.stop].count(l.key))
+            {
+                bool reborn = false;
+                for (auto &l2 : lives) if (l2.key == l.key && l2.start == l.stop) reborn = true;
+                if (!reborn) out.violation = "key " + std::to_string(l.key) + " is still in the map output in cycle " + std::to_string(l.stop) + " after it left both dictionaries";
+            }
+        }
+        if (!out.violation) for (auto &[k, m] : seen) if (!covered_keys.count(k)) { out.violation = "the map produced output for key " + std::to_string(k) + " which is in neither dictionary"; break; }
+        if (!out.violation && (obs.starts != static_cast<long>(lives.size()) || obs.stops != obs.starts))
+            out.violation = "child graph lifecycle: " + std::to_string(obs.starts) + " starts / " + std::to_string(obs.stops) + " stops for " + std::to_string(lives.size()) + " union-key lives";
+        out.sig = sig.str();
+        out.nontrivial = lives.size() >= 2;
+        return out;
+    }
+
     Outcome run_desc(const std::string &desc)
     {
+        if (desc.rfind("two|", 0) == 0 || desc.rfind("twocount|", 0) == 0)
+        {
+            auto parts = split(desc, '|');
+            return parts[0] == "two" ? run_two<FPair>(split(parts.at(1), ';'), split(parts.at(2), ';')) : run_two<FPairCount>(split(parts.at(1), ';'), split(parts.at(2), ';'));
+        }
         auto parts = split(desc, '|');
         const std::string f = parts.at(0);
         std::vector<std::string> script = split(parts.at(1), ';');
@@ -327,6 +516,43 @@ void verif_enumerate(verif::Ctx &ctx)
         {"timer", {"s1=2", "s2=3", "s3=4", "s2=2", "e1", "e2", "e3"}, 2, th ? 4 : 3, {}},
         {"bcast", {"s1=5", "s2=6", "e1", "s1=7"}, 1, th ? 5 : 4, {"", "v1", "v2"}},
     };
+    // two multiplexed dictionaries: every pair of per-dictionary histories
+    {
+        const std::vector<std::string> alpha = {"s1=5", "s1=6", "s2=7", "e1", "e2"};
+        std::vector<std::string> lists;
+        gen_lists(alpha, 1, lists);
+        if (th) { lists.push_back("s1=5,s2=7"); lists.push_back("e1,e2"); lists.push_back("e1,s1=6"); }
+        const int T = 3;
+        std::vector<std::string> hist;
+        std::vector<int> idx(static_cast<std::size_t>(T), 0);
+        while (true)
+        {
+            std::string b;
+            for (int c = 0; c < T; ++c) b += (c ? ";" : "") + lists[static_cast<std::size_t>(idx[static_cast<std::size_t>(c)])];
+            hist.push_back(b);
+            int p = 0;
+            while (p < T && ++idx[static_cast<std::size_t>(p)] == static_cast<int>(lists.size())) { idx[static_cast<std::size_t>(p)] = 0; ++p; }
+            if (p == T) break;
+        }
+        for (const char *fnname : {"two", "twocount"})
+            for (auto &h1 : hist) for (auto &h2 : hist)
+            {
+                if (!ctx.next_is_mine()) continue;
+                const std::string desc = std::string{fnname} + "|" + h1 + "|" + h2;
+                ++ctx.evaluations; ++ctx.traces;
+                Outcome o = run_desc(desc);
+                ctx.transitions += o.ticks;
+                ctx.state(std::string{fnname} + "#" + o.sig);
+                if (o.nontrivial) ctx.nontriv(desc);
+                ctx.count(std::string{"cases_"} + fnname);
+                if (o.violation)
+                {
+                    Outcome o2 = run_desc(desc);
+                    if (!o2.violation || *o2.violation != *o.violation) throw verif::HarnessError("case not reproducible: " + desc);
+                    ctx.violation(desc, *o.violation, std::string{fnname} + ": " + o.violation->substr(0, 44));
+                }
+            }
+    }
     for (auto &sp : spaces)
     {
         std::vector<std::string> lists;
